@@ -43,6 +43,32 @@ def step (line : String) : String :=
   | ["b64.dec", h] => match hexArg h with
     | some b => optBytes (decodeBinaryHeader b)
     | none => "bad-op"
+  | ["gtmo.enc", d] => match d.toInt? with
+    | some k => match grpcEncodeTimeout k with
+      | some b => "ok " ++ hexOut b
+      | none => "none"
+    | none => "bad-op"
+  | ["gtmo.parse", h] => match hexArg h with
+    | some b => match grpcParseTimeout b with
+      | .ok n => s!"ok {n}"
+      | .noTimeout => "none"
+      | .invalid => "invalid"
+    | none => "bad-op"
+  | ["gtmo.serve", h] => match hexArg h with
+    | some b => match grpcParseTimeout b with
+      | .ok _ => "ran deadline"
+      | .noTimeout => "ran none"
+      | .invalid => "rejected invalid_argument norun"
+    | none => "bad-op"
+  | ["ctmo.serve", h] => match hexArg h with
+    | some b => match connectParseTimeout b with
+      | .ok n => s!"ran {n}"
+      | .noTimeout => "ran none"
+      | .invalid => "rejected invalid_argument norun"
+    | none => "bad-op"
+  | ["ctmo.enc", lo, hi, hdr] => match lo.toInt?, hi.toInt?, (if hdr == "none" then some none else (hexArg hdr).map some) with
+    | some l, some h, some hd => if connectEncodeConsistent l h hd then "ok" else "bad"
+    | _, _, _ => "bad-op"
   | ["canary"] => "canary-model"
   | _ => "bad-op"
 
